@@ -233,6 +233,8 @@ var (
 	sharedBuf bytes.Buffer
 	sharedEnc = text.NewEncoder(&sharedBuf)
 	sharedN   int
+	// renderings on the shared encoder that failed (truncated input)
+	failedEncodes int
 )
 
 func doText() {
@@ -284,6 +286,20 @@ func doText() {
 						return
 					}
 					emit(J{"k": "render", "vid": vid, "n": 0, "keep": false, "text": ints([]byte(str)), "s": []int{}, "lit": []int{}, "path": "", "kind": "", "tok": []int{}, "acc": []int{}, "tokp": []int{}})
+					// a rendering that fails half way (the same struct in a segment cut short, so that the object of its last
+					// pointer field is out of bounds) must leave nothing behind on the shared encoder
+					if f.ptr && vi == 1 {
+						if raw := seg.Data(); len(raw) > 16 {
+							cutm := &capnp.Message{Arena: capnp.SingleSegment(append([]byte(nil), raw[:len(raw)-8]...))}
+							if cr, err := cutm.Root(); err == nil && cr.Struct().IsValid() {
+								sharedBuf.Reset()
+								if err := sharedEnc.Encode(t.id, cr.Struct()); err != nil {
+									failedEncodes++
+								}
+								sharedBuf.Reset()
+							}
+						}
+					}
 					// the same value on an Encoder that has rendered every earlier value of every type: same text
 					sharedBuf.Reset()
 					var str2 string
